@@ -178,6 +178,16 @@ def run_check(ctx):
         ctx.extra['bit_forgeries_tried'] = nf
     except RuntimeError as e:
         ctx.violation('harness failed: %s' % str(e)[:300], {'stage': 'build', 'log': str(e)[-3000:]}, {'stage': 'build'}, found_input=False)
+    # the equality gadgets between different representatives of one element (a decoded variable against a constant holding the 2-torsion
+    # translate / a rescaling): an enforced (in)equality may be satisfiable only when it holds natively
+    try:
+        n_e, f_e = G.equality_family(ctx.rng.fork('eqfam'), pool, scale, E, t2_translate, rescale, neg_pt)
+        ctx.cov['evaluations'] += n_e; ctx.cov['distinct_nontrivial'] += n_e
+        for kind, desc, l, o in f_e:
+            if kind != 'unsound': continue
+            ctx.violation('C14: %s (%s)' % (desc, l[:110]), {'stage': 'search', 'script': [l], 'output': [o]}, {'gadget': l.split()[0], 'class': 'equality_representatives'}, found_input=True)
+    except RuntimeError as e:
+        ctx.violation('harness failed: %s' % str(e)[:300], {'stage': 'build', 'log': str(e)[-3000:]}, {'stage': 'build'}, found_input=False)
     if broken and not ctx.violations:
         for desc, replay in broken[:5]:
             ctx.violation('C14 is no longer shown to hold — %s; no failing input (beyond the recorded finding) found on the implementation' % desc, replay,
